@@ -103,9 +103,14 @@ LOCKNAME = "MAIN_WRITELOCK"
 # parts of a fingerprint. With the W3 codec the per-document data (stored fields, lengths, vector offsets, sort columns)
 # are column files that a reader opens on first use; only the term index / postings are opened with the reader.
 OPEN_PARTS = ("doc_count", "keys", "stored", "terms")       # what check_fresh looks at (opens the stored-fields column)
-LAZY_PARTS = ("lengths", "vectors", "columns", "sorted_by_n", "scored")
+LAZY_PARTS = ("lengths", "vectors", "columns", "leaf_columns", "sorted_by_n", "by_c_column", "scored")
 ALL_PARTS = OPEN_PARTS + LAZY_PARTS
 COLUMN_BACKED = ("keys", "stored") + LAZY_PARTS             # can be affected by the listed loose-segment finding
+# not derived from the dict model: compared only between two probes of the same held searcher
+UNMODELLED = ("scored", "leaf_columns")
+# the user-facing column API: IndexReader.has_column / column_reader, sort and group on a column
+USER_COLUMN_PARTS = ("columns", "leaf_columns", "sorted_by_n", "by_c_column")
+READ_OK_ATTR = "_vf_c03_parts_read_ok"
 EAGER_PARTS = OPEN_PARTS
 KNOWN_LOOSE = "known:loose-segment-lazily-opened-file-after-clean_files"
 
@@ -115,11 +120,23 @@ class Boom(Exception):
 
 
 def make_schema():
-    from whoosh import fields
+    from whoosh import columns, fields
+    # c is a column-ONLY field (not indexed, not stored): sorting / grouping on it has no posting-list fallback
     return fields.Schema(id=fields.ID(stored=True, unique=True),
                          t=fields.TEXT(stored=True, vector=True),
                          n=fields.NUMERIC(stored=True, sortable=True),
-                         k=fields.KEYWORD(stored=True))
+                         k=fields.KEYWORD(stored=True),
+                         c=fields.COLUMN(columns.NumericColumn("i")))
+
+
+def parts_read_ok(searcher):
+    """The set of fingerprint parts that THIS searcher object has already evaluated without an error and in agreement
+    with the model of its generation (kept on the searcher object: Searcher.refresh() returning self keeps it, a new
+    searcher - even one that re-uses segment readers - starts empty, which only errs towards the listed finding)."""
+    d = searcher.__dict__
+    if READ_OK_ATTR not in d:
+        d[READ_OK_ATTR] = set()
+    return d[READ_OK_ATTR]
 
 
 def _plain(b):
@@ -207,12 +224,26 @@ def fingerprint(searcher, parts=None, errors=None):
     run("vectors", vectors)
 
     def columns():
-        if not r.has_column("n"):
-            return None
-        cr = r.column_reader("n")
-        return dict((km[dn][0], cr[dn]) for dn in km)
+        res = {}
+        for f in ("n", "c"):
+            if not r.has_column(f):
+                res[f] = None
+                continue
+            cr = r.column_reader(f)
+            res[f] = dict((km[dn][0], cr[dn]) for dn in km)
+        return res
     run("columns", columns)
+    run("leaf_columns", lambda: [(bool(lr.has_column("n")), bool(lr.has_column("c"))) for lr, _ in r.leaf_readers()])
     run("sorted_by_n", lambda: [h["id"] for h in searcher.search(query.Every(), limit=None, sortedby="n")])
+
+    def by_c_column():
+        from whoosh import sorting
+        res = searcher.search(query.Every(), limit=None, sortedby=[sorting.FieldFacet("c"), sorting.FieldFacet("n")],
+                              groupedby={"c": sorting.FieldFacet("c")})
+        groups = dict((gk, sorted(km[dn][0] if dn in km else "?doc%d" % dn for dn in dns))
+                      for gk, dns in res.groups("c").items())
+        return {"order": [h["id"] for h in res], "groups": groups}
+    run("by_c_column", by_c_column)
     run("scored", lambda: [(h["id"], round(h.score, 6)) for h in
                            searcher.search(query.Or([query.Term("t", "alfa"), query.Term("t", "bravo")]), limit=None)])
     return out
@@ -250,9 +281,14 @@ def expected(model, parts=None):
             vec[k] = sorted((w.encode("utf-8"), words.count(w)) for w in set(words))
         out["vectors"] = vec
     if "columns" in want:
-        out["columns"] = dict((k, model[k]["n"]) for k in keys)
+        out["columns"] = {"n": dict((k, model[k]["n"]) for k in keys), "c": dict((k, model[k]["c"]) for k in keys)}
     if "sorted_by_n" in want:
         out["sorted_by_n"] = sorted(keys, key=lambda k: model[k]["n"])
+    if "by_c_column" in want:
+        groups = {}
+        for k in keys:
+            groups.setdefault(model[k]["c"], []).append(k)
+        out["by_c_column"] = {"order": sorted(keys, key=lambda k: (model[k]["c"], model[k]["n"])), "groups": groups}
     return out
 
 
@@ -260,7 +296,7 @@ def comparable(fp):
     """Projection of a fingerprint onto what `expected` models (postings reduced to key + frequency)."""
     out = {}
     for part, v in fp.items():
-        if part == "scored":
+        if part in UNMODELLED:
             continue
         if part == "terms":
             t2 = {}
@@ -268,8 +304,9 @@ def comparable(fp):
                 if plist:       # a term whose documents are all deleted stays in the lexicon until a merge
                     t2[term] = sorted(p[0] for p in plist)
             out[part] = t2
-        elif part == "columns" and v is None:
-            out[part] = {}      # no column at all: right only for an index without documents
+        elif part == "columns":
+            # no column at all: right only for an index without documents
+            out[part] = dict((f, {} if cv is None else cv) for f, cv in v.items())
         else:
             out[part] = v
     return out
@@ -418,6 +455,7 @@ class DocGen(object):
             self.nkey += 1
             key = "d%03d" % self.nkey
         d = {"id": key, "t": " ".join(rng.choice(VOCAB) for _ in range(rng.randint(1, 4))), "n": self.nvals.pop()}
+        d["c"] = d["n"] % 5         # derived (no draw): the value of the column-only field, 5 groups
         if rng.random() < 0.5:
             d["k"] = " ".join(sorted(rng.sample(["red", "green", "blue"], rng.randint(1, 2))))
         return d
@@ -531,10 +569,14 @@ def loose_orphans(H, reader):
     return out
 
 
-def judge(env, monitor, what, reader, got, errs, exp, base_w, parts_checked, n0=0):
-    """Compare `got` (fingerprint) with `exp`. Returns True when it agrees. Disagreements that are exactly the listed
-    loose-segment mechanism are recorded under the known mech; everything else is a violation."""
+def judge(env, monitor, what, reader, got, errs, exp, base_w, parts_checked, n0=0, read_before=None):
+    """Compare `got` (fingerprint) with `exp`. Returns True when it agrees (and then adds the parts to `read_before`,
+    the set of parts this searcher object has read correctly so far). Disagreements that are exactly the listed
+    loose-segment mechanism - which requires that NONE of the failing parts had been read by this searcher before -
+    are recorded under the known mech; everything else is a violation."""
     H, ctx = env.H, env.ctx
+    if read_before is None:
+        read_before = set()
     bad_parts = differing_parts(dict((p, got.get(p)) for p in parts_checked if p in exp or p in got),
                                 dict((p, exp.get(p)) for p in parts_checked if p in exp or p in got))
     bad_parts = [p for p in bad_parts if p not in errs]
@@ -543,13 +585,19 @@ def judge(env, monitor, what, reader, got, errs, exp, base_w, parts_checked, n0=
         bad_parts = [p for p in bad_parts if p == "doc_count"]
     err_parts = sorted(errs)
     if not bad_parts and not err_parts:
+        read_before.update(parts_checked)      # no part raised: every one of them was evaluated
         return True
     orphans = loose_orphans(H, reader)
     evidence = H.lazy_evidence(env.sched.current(), reader, n0)
     w = dict(base_w)
+    # a part that this very searcher has already read correctly has all its files open (W3PerDocReader caches the
+    # handles): whatever was removed since, it must stay readable - never the listed finding
+    reread = [p for p in bad_parts + err_parts if p in read_before]
     w.update({"what": what, "parts_differing": bad_parts, "parts_raising": dict((p, repr(errs[p])[:200]) for p in err_parts),
               "loose_segments_with_removed_files": orphans,
-              "removed_files_first_looked_for_by_this_probe": evidence[:6]})
+              "removed_files_looked_for_by_this_probe": evidence[:6],
+              "parts_read_correctly_by_this_searcher_before": sorted(read_before),
+              "failing_parts_already_read_before": reread})
     for p in bad_parts[:3]:
         w["got:" + p] = got.get(p)
         w["expected:" + p] = exp.get(p)
@@ -558,7 +606,8 @@ def judge(env, monitor, what, reader, got, errs, exp, base_w, parts_checked, n0=
         e = errs[p]
         detail = "".join(traceback.format_exception(type(e), e, e.__traceback__))[-2500:]
     lazy_only = all(p in COLUMN_BACKED for p in bad_parts + err_parts)
-    if orphans and evidence and lazy_only and env.layout != "compound":
+    loose_mechanism = bool(orphans and evidence and lazy_only and env.layout != "compound")
+    if loose_mechanism and not reread:
         ctx.count("known.loose_lazy." + what)
         for p in bad_parts:
             ctx.count("known.loose_lazy.part.%s.differs" % p)
@@ -578,6 +627,8 @@ def judge(env, monitor, what, reader, got, errs, exp, base_w, parts_checked, n0=
         mech = "%s:%s-raises:%s@%s" % (what, _pclass(err_parts[0]), type(e).__name__, whoosh_site(e)[0])
     else:
         mech = "%s:%s-differs" % (what, "+".join(sorted(set(_pclass(p) for p in bad_parts))))
+    if loose_mechanism:
+        mech += ":part-already-read-by-this-searcher-before-the-files-were-removed"
     ctx.fail(monitor, mech, w, detail)
     env.stop = True
     return False
@@ -658,7 +709,7 @@ def check_fresh(env, what, sr, completed_before, info, content=True):
     fp = fingerprint(sr, parts=OPEN_PARTS, errors=errs)
     exp = expected(model, parts=OPEN_PARTS)
     ctx.count(what + ".content_evals")
-    if not judge(env, "commit-state", what, r, comparable(fp), errs, exp, w, OPEN_PARTS, n0):
+    if not judge(env, "commit-state", what, r, comparable(fp), errs, exp, w, OPEN_PARTS, n0, parts_read_ok(sr)):
         return None if env.stop else "known"
     bad = freq_ok(fp, model)
     if bad:
@@ -723,7 +774,7 @@ def reader_thread(env, k):
             n0 = env.tap.n
             fp0 = fingerprint(sr, errors=errs0)
             if not judge(env, "held-snapshot", "probe-at-open", r, comparable(fp0), errs0, expected(model), w, ALL_PARTS,
-                         n0):
+                         n0, parts_read_ok(sr)):
                 if env.stop:
                     break
                 sr = _drop(sr)
@@ -746,6 +797,13 @@ def reader_thread(env, k):
                 ctx.count("held.everything_first_touched_after_commit")
         if loose_orphans(H, r):
             ctx.count("held.loose_segment_files_removed_during_hold")
+            # the situations in which the two-level oracle must NOT excuse a failure: this searcher re-reads, after
+            # files of its loose segments were removed, parts that it has already read
+            before = parts_read_ok(sr)
+            if before & set(COLUMN_BACKED):
+                ctx.count("held.loose_removed.reread_of_parts_read_before")
+            if before.issuperset(USER_COLUMN_PARTS):
+                ctx.count("held.loose_removed.reread_of_user_columns_read_before")
         # ---- second probe: equals the model of ITS generation (and the first probe, scores included)
         w = dict(env.wb)
         w.update(info)
@@ -754,7 +812,7 @@ def reader_thread(env, k):
         fp1 = fingerprint(sr, errors=errs1)
         ctx.count("held.evals")
         if not judge(env, "held-snapshot", "probe-after-hold", r, comparable(fp1), errs1, expected(model), w, ALL_PARTS,
-                     n0):
+                     n0, parts_read_ok(sr)):
             if env.stop:
                 break
             sr = _drop(sr)         # listed finding: this searcher is of no further use
@@ -1074,11 +1132,12 @@ def run_proc_case(ctx, idx, rng):
                 exp = expected(models[g], parts)
                 ctx.count("proc.open_evals")
                 if errs or differing_parts(comparable(fp0), exp):
-                    if not _proc_known(ctx, layout, w, "proc:%s" % what, fp0, exp, errs, sr.reader(), pev):
+                    if not _proc_known(ctx, layout, w, "proc:%s" % what, fp0, exp, errs, sr, pev):
                         ok = False
                         break
                     sr = None
                     continue
+                parts_read_ok(sr).update(parts)
                 time.sleep(rng.choice([0, 0.005, 0.05, 0.3]))
                 held_latest = ix.latest_generation()
                 if held_latest != g:
@@ -1089,12 +1148,16 @@ def run_proc_case(ctx, idx, rng):
                 fp1 = fingerprint(sr, errors=errs)
                 exp = expected(models[g])
                 ctx.count("proc.held_evals")
+                if held_latest != g and layout != "compound" and parts_read_ok(sr).issuperset(USER_COLUMN_PARTS):
+                    ctx.count("proc.loose.reread_of_user_columns_after_commit")
                 if errs or differing_parts(comparable(fp1), exp) or (mode == "pretouched" and fp0 != fp1):
-                    if not _proc_known(ctx, layout, w, "proc:probe-after-hold", fp1, exp, errs, sr.reader(), pev):
+                    if not _proc_known(ctx, layout, w, "proc:probe-after-hold", fp1, exp, errs, sr, pev,
+                                       changed=(differing_parts(fp0, fp1) if mode == "pretouched" else [])):
                         ok = False
                         break
                     sr = None
                     continue
+                parts_read_ok(sr).update(ALL_PARTS)
                 lo = ix.latest_generation()
                 u = sr.up_to_date()
                 hi = ix.latest_generation()
@@ -1149,10 +1212,13 @@ def run_proc_case(ctx, idx, rng):
         shutil.rmtree(root, ignore_errors=True)
 
 
-def _proc_known(ctx, layout, w, what, fp, exp, errs, reader, pev):
+def _proc_known(ctx, layout, w, what, fp, exp, errs, searcher, pev, changed=()):
     """Process variant: the removals happen in the other process, so the evidence for the listed finding is: during
     the failing probe the parent looked for (open-r / stat, passive tap) a file of a LOOSE segment of this reader that
-    does not exist any more."""
+    does not exist any more - and none of the failing parts had been read correctly by this searcher object before
+    (`changed`: parts that differ from the first probe of the same iteration)."""
+    reader = searcher.reader()
+    read_before = parts_read_ok(searcher)
     cmpfp = comparable(fp)
     loose = set()
     for seg in (reader.segments() or []):
@@ -1164,24 +1230,31 @@ def _proc_known(ctx, layout, w, what, fp, exp, errs, reader, pev):
     if "keys" in errs:
         # every other part needs the docnum -> key mapping (stored fields): it was not evaluated, not wrong
         bad = [p for p in bad if p == "doc_count"]
+    bad = sorted(set(bad) | set(p for p in changed if p not in errs))
     lazy_only = all(p in COLUMN_BACKED for p in bad + sorted(errs))
+    reread = [p for p in bad + sorted(errs) if p in read_before]
     w = dict(w)
     w.update({"what": what, "parts_differing": bad, "parts_raising": dict((p, repr(e)[:200]) for p, e in errs.items())})
-    w["removed_files_first_looked_for_by_this_probe"] = evidence[:6]
-    if layout != "compound" and lazy_only and evidence:
+    w["removed_files_looked_for_by_this_probe"] = evidence[:6]
+    w["parts_read_correctly_by_this_searcher_before"] = sorted(read_before)
+    w["failing_parts_already_read_before"] = reread
+    if layout != "compound" and lazy_only and evidence and not reread:
         ctx.count("known.loose_lazy.proc")
         ctx.fail("held-snapshot", KNOWN_LOOSE, w)
         return True
+    sfx = ""
+    if layout != "compound" and lazy_only and evidence:
+        sfx = ":part-already-read-by-this-searcher-before-the-files-were-removed"
     if errs:
         p = sorted(errs)[0]
         e = errs[p]
         from vf.core import whoosh_site
-        ctx.fail("held-snapshot", "%s:%s-raises:%s@%s" % (what, _pclass(p), type(e).__name__, whoosh_site(e)[0]), w,
-                 "".join(traceback.format_exception(type(e), e, e.__traceback__))[-2500:])
+        ctx.fail("held-snapshot", "%s:%s-raises:%s@%s%s" % (what, _pclass(p), type(e).__name__, whoosh_site(e)[0], sfx),
+                 w, "".join(traceback.format_exception(type(e), e, e.__traceback__))[-2500:])
     else:
         for p in bad[:2]:
             w["got:" + p], w["expected:" + p] = cmpfp.get(p), exp.get(p)
-        ctx.fail("held-snapshot", "%s:%s-differs" % (what, "+".join(sorted(set(_pclass(p) for p in bad)))), w)
+        ctx.fail("held-snapshot", "%s:%s-differs%s" % (what, "+".join(sorted(set(_pclass(p) for p in bad))), sfx), w)
     return False
 
 
